@@ -608,11 +608,11 @@ func kdPhase(ctx *core.Ctx, cov *core.Cov, prop string) error {
 		}
 		for p := 1; p <= c.N; p++ {
 			got := run.R3[p-1]
-			lines = append(lines, map[string]any{"ev": "R3", "p": p, "out": got.Out, "x": got.X, "bigx": got.BigX, "y": got.Y, "culprits": got.Culprits})
+			want := kdPredict(run, p)
+			lines = append(lines, map[string]any{"ev": "R3", "p": p, "out": got.Out, "x": got.X, "bigx": got.BigX, "y": got.Y, "culprits": got.Culprits, "pred": want.Out})
 			if faults && p == c.Fault.From {
 				continue // the deviating party's own result is not judged
 			}
-			want := kdPredict(run, p)
 			switch want.Out {
 			case "degenerate":
 				degenerate++
@@ -653,7 +653,18 @@ func kdPhase(ctx *core.Ctx, cov *core.Cov, prop string) error {
 							zero = true
 						}
 					}
-					if !faults || zero || got.ErrRound != 3 {
+					named := false
+					for _, g := range got.Culprits {
+						for _, w := range want.Culprits {
+							if g == w {
+								named = true
+							}
+						}
+					}
+					// in a toy group a further, honest dealer can fail the check for a reason the model does not name (an
+					// identity point in the middle of the verification): judged here is only whether the sender of the altered
+					// value is named; attribution to honest parties at real size is judged by the fault catalogue
+					if !faults || zero || got.ErrRound != 3 || named {
 						ctx.Note("drift: %s: party %d aborts in round %d naming %v, the model names %v in round 3 (a degenerate toy value or an earlier stop: outside the properties)", c.id(), p, got.ErrRound, got.Culprits, want.Culprits)
 					} else {
 						ctx.Report(key+":blame", fmt.Sprintf("%s: party %d names %v, the altered value came from %v (%s)", c.id(), p, got.Culprits, want.Culprits, got.Detail), c)
@@ -699,7 +710,7 @@ func kdPhase(ctx *core.Ctx, cov *core.Cov, prop string) error {
 			copy(bad, lines)
 			changed := false
 			for i, l := range bad {
-				if l["ev"] == "R3" && (l["out"] == "ok" || l["out"] == "abort") {
+				if l["ev"] == "R3" && ((l["out"] == "ok" && l["pred"] == "ok") || (l["out"] == "abort" && l["pred"] == "abort")) {
 					m := map[string]any{}
 					for k, v := range l {
 						m[k] = v
